@@ -527,7 +527,9 @@ func (store *HStore) ChangeRoute(newConf config.DBRouteConfig) (loaded, unloaded
 		bkt := store.buckets[i]
 		oldc := Conf.BucketsStat[i]
 		newc := newConf.BucketsStat[i]
-		if newc != oldc {
+		// compare "served or not": a hot-loaded bucket is recorded as READY, a route
+		// table says NOT_EMPTY for it; that is not a change
+		if (newc >= BUCKET_STAT_NOT_EMPTY) != (oldc >= BUCKET_STAT_NOT_EMPTY) {
 			if newc >= BUCKET_STAT_NOT_EMPTY {
 
 				logger.Infof("hot load bucket %d", i)
